@@ -241,6 +241,8 @@ def concurrent(ctx, thunks, p_den=60, forced_max=4):
     ctx.probes["traced_lines"] += S.lines
     ctx.probes["concurrent_scenarios"] += 1
     ctx.log("schedule", tuple(S.schedule[:100]))
+    if S.schedule:
+        ctx.measure("thread_schedules (sequence of (traced line, thread) switch points)", tuple(S.schedule))
     for r in results:
         if r and r[0] == "violation":
             raise r[1]
